@@ -14,6 +14,7 @@ import (
 	"os"
 	"path"
 	"path/filepath"
+	"regexp"
 	"strings"
 	"sync"
 	"time"
@@ -217,6 +218,18 @@ func (h *FSEventHandler) UpsertHash(fileName string, hash [sha256.Size]byte) (up
 	return true
 }
 
+var (
+	writeStringLiteralArg = regexp.MustCompile(`(templruntime\.WriteString\(templ_7745c5c3_Buffer, \d+, )"(?:[^"\\]|\\.)*"\)`)
+	templErrorPosition    = regexp.MustCompile(`Line: \d+, Col: \d+`)
+)
+
+// generatedCodeShape returns the generated code without the parts that development mode reads from the
+// text file (the string literals) or that only locate errors.
+func generatedCodeShape(goCode []byte) []byte {
+	goCode = writeStringLiteralArg.ReplaceAll(goCode, []byte(`$1"")`))
+	return templErrorPosition.ReplaceAll(goCode, []byte("Line: 0, Col: 0"))
+}
+
 // generate Go code for a single template.
 // If a basePath is provided, the filename included in error messages is relative to it.
 func (h *FSEventHandler) generate(ctx context.Context, fileName string) (result GenerateResult, diagnostics []parser.Diagnostic, err error) {
@@ -277,6 +290,12 @@ func (h *FSEventHandler) generate(ctx context.Context, fileName string) (result 
 		defer h.fileNameToOutputMutex.Unlock()
 		previous := h.fileNameToOutput[fileName]
 		if generator.HasChanged(previous, generatorOutput) {
+			result.GoUpdated = true
+		}
+		// The Go code around the text literals can change although the Go expressions and the number of
+		// literals stay the same (e.g. title={ x } to style={ x } calls a different escaping function),
+		// so also compare the generated code with its literal texts and error positions masked.
+		if h.UpsertHash(targetFileName+"#shape", sha256.Sum256(generatedCodeShape(formattedGoCode))) {
 			result.GoUpdated = true
 		}
 		h.fileNameToOutput[fileName] = generatorOutput
